@@ -15,12 +15,14 @@ CONF = {
                           ('brackets-deep', ('H_E', 'M_E0', 'T_PM', 'O_PM', 6, 4), 4000, (1500, 30)),
                           ('loops-only', ('H_E', 'M_E0', 'T_PM', 'O_L02', 6, 3), 6000),
                           ('struct-deep', ('H_E', 'M_E1', 'T_E1', 'O_E', 7, 4), 2500, (1000, 40)),
-                          ('struct-macro-ovr', ('H_E', 'M_E2', 'T_E1', 'O_E0', 2, 4), 1500)],
+                          ('struct-macro-ovr', ('H_E', 'M_E2', 'T_E1', 'O_E0', 2, 4), 1500),
+                          ('loops-sub', ('H_E', 'M_E0', 'NoGates', 'O_LS', 7, 4), 16000)],
                    thorough=[('struct', ('H_E', 'M_E0', 'T_E', 'O_E', 5, 4), 120000), ('struct-macro', ('H_E', 'M_E1', 'T_E1', 'O_E', 4, 3), 60000),
                              ('brackets', ('H_E', 'M_E0', 'T_PM', 'O_PM', 6, 4), 150000),
                              ('loops-only', ('H_E', 'M_E0', 'T_PM', 'O_L02', 8, 4), 100000),
                              ('struct-deep', ('H_E', 'M_E1', 'T_E1', 'O_E', 9, 5), 60000, (20000, 50)),
-                             ('struct-macro-ovr', ('H_E', 'M_E2', 'T_E1', 'O_E0', 3, 4), 40000)]),
+                             ('struct-macro-ovr', ('H_E', 'M_E2', 'T_E1', 'O_E0', 3, 4), 40000),
+                             ('loops-sub', ('H_E', 'M_E0', 'NoGates', 'O_LS', 9, 5), 100000)]),
     'gates': dict(quick=[('gates-wide', ('H_G', 'M_G', 'T_G', 'O_G', 3, 3, 'NoGates'), 3000),
                          ('gates-deep', ('H_G', 'M_E0', 'T_G2', 'O_G2', 5, 2, 'NoGates'), 2000),
                          ('gates-sim', ('H_G', 'M_G', 'T_G', 'O_G', 9, 4, 'NoGates'), 2500, (700, 40)),
@@ -54,7 +56,7 @@ PROPS = {
                 rule='same enumeration as C12, executed by the emulator and by the hardware-output parser on an output '
                      'list of the length the specification computes; non-trivial = distinct accepted programs with a loop '
                      'around a subcircuit'),
-    'C03': dict(conf=['gates'], owned={'vector', 'exact_repr', 'applied_gates', 'probabilities'}, sites=('run', 'run_ovr'),
+    'C03': dict(conf=['gates'], owned={'vector', 'exact_repr', 'applied_gates', 'applied_count', 'step_vectors', 'probabilities'}, sites=('run', 'run_ovr'),
                 rule='programs over the exact gate family on 3 qubits (direct, aliased and named qubits, macro parameters, '
                      'let-valued parameters, loops, parallel blocks); non-trivial = distinct accepted programs applying >= 2 '
                      'gates with a unitary'),
